@@ -378,3 +378,1010 @@ Proof.
     + apply rollback_restores; auto. eapply hit_past; exact Hh.
     + cbn [init_st st_n] in Hh. eapply hit_widen; [exact Hh|lia|]. apply rollback_n_mono.
 Qed.
+
+(* ------------------------------------------------------------------ find_files: the delimited listing of the object root *)
+
+Lemma map_res_ok_in {A B} (f : A -> res B) : forall l ys, map_res f l = Ok ys ->
+  forall y, In y ys <-> exists x, In x l /\ f x = Ok y.
+Proof.
+  induction l as [|a r IH]; intros ys H y; cbn [map_res] in H.
+  - injection H as <-. split; [intros []|intros (x & [] & _)].
+  - destruct (f a) as [b0| |] eqn:Fa; [|discriminate|discriminate].
+    destruct (map_res f r) as [xs| |] eqn:Fr; [|discriminate|discriminate].
+    injection H as <-. specialize (IH xs eq_refl y). cbn [In]. split.
+    + intros [<- | Hy]; [exists a; auto|]. apply IH in Hy as (x & Hx & E). exists x. auto.
+    + intros (x & [<- | Hx] & E); [left; congruence|]. right. apply IH. eauto.
+Qed.
+
+Lemma map_res_all_ok {A B} (f : A -> res B) : forall l,
+  (forall x, In x l -> exists y, f x = Ok y) -> exists ys, map_res f l = Ok ys.
+Proof.
+  induction l as [|a r IH]; intros H; [exists []; reflexivity|].
+  destruct (H a (or_introl eq_refl)) as [y Ey]. destruct IH as [ys Eys]; [intros x Hx; apply H; now right|].
+  exists (y :: ys). cbn [map_res]. now rewrite Ey, Eys.
+Qed.
+
+Lemma classify_key rp delim k e : classify rp delim k = Some (EKey e) -> e = k /\ starts_with rp k = true.
+Proof.
+  unfold classify. destruct (starts_with rp k); [|discriminate]. destruct delim.
+  - destruct (upto_slash _); [discriminate|]. intros H. injection H as <-. auto.
+  - intros H. injection H as <-. auto.
+Qed.
+
+Lemma upto_slash_some : forall s seg, upto_slash s = Some seg -> exists x, seg = x ++ [slash].
+Proof.
+  induction s as [|c r IH]; intros seg H; cbn [upto_slash] in H; [discriminate|].
+  destruct (is_slash c) eqn:E.
+  - injection H as <-. apply is_slash_eq in E. subst c. exists []. reflexivity.
+  - destruct (upto_slash r) as [x|]; [|discriminate]. injection H as <-.
+    destruct (IH x eq_refl) as [y ->]. exists (c :: y). reflexivity.
+Qed.
+
+Lemma upto_slash_noslash : forall s, noslash s = true -> upto_slash s = None.
+Proof.
+  induction s as [|c r IH]; intros H; [reflexivity|]. cbn [noslash forallb] in H.
+  apply andb_true_iff in H as [H1 H2]. cbn [upto_slash]. destruct (is_slash c); [discriminate|].
+  unfold noslash in IH. now rewrite IH.
+Qed.
+
+Lemma classify_pre rp k p : classify rp true k = Some (EPre p) ->
+  starts_with rp k = true /\ exists x, p = rp ++ x ++ [slash].
+Proof.
+  unfold classify. destruct (starts_with rp k); [|discriminate].
+  destruct (upto_slash _) as [seg|] eqn:U; [|discriminate]. intros H. injection H as <-.
+  destruct (upto_slash_some _ _ U) as [x ->]. eauto.
+Qed.
+
+Lemma classify_plain rp name : noslash name = true -> classify rp true (rp ++ name) = Some (EKey (rp ++ name)).
+Proof.
+  intros H. unfold classify. rewrite starts_with_refl_app, skipn_length_app. now rewrite upto_slash_noslash.
+Qed.
+
+Lemma entries_keys_in rp keys : forall seen k,
+  In k (keys_of_entries (entries_of seen rp true keys)) <-> In k keys /\ classify rp true k = Some (EKey k).
+Proof.
+  induction keys as [|k0 ks IH]; intros seen k; cbn [entries_of keys_of_entries flat_map In].
+  - split; [intros []|intros [[] _]].
+  - destruct (classify rp true k0) as [[e|p]|] eqn:C.
+    + destruct (classify_key _ _ _ _ C) as [-> _]. cbn [keys_of_entries flat_map app In].
+      fold (keys_of_entries (entries_of seen rp true ks)). rewrite IH. split.
+      * intros [<- | [H1 H2]]; auto.
+      * intros [[<- | H1] H2]; auto.
+    + destruct (existsb (bytes_eqb p) seen).
+      * rewrite IH. split; [intros [H1 H2]; auto|]. intros [[<- | H1] H2]; [congruence|auto].
+      * cbn [keys_of_entries flat_map app]. fold (keys_of_entries (entries_of (p :: seen) rp true ks)).
+        rewrite IH. split; [intros [H1 H2]; auto|]. intros [[<- | H1] H2]; [congruence|auto].
+    + rewrite IH. split; [intros [H1 H2]; auto|]. intros [[<- | H1] H2]; [congruence|auto].
+Qed.
+
+Lemma entries_pres_in rp keys : forall seen p,
+  In p (pres_of_entries (entries_of seen rp true keys)) -> exists k, In k keys /\ classify rp true k = Some (EPre p).
+Proof.
+  induction keys as [|k0 ks IH]; intros seen p; cbn [entries_of pres_of_entries flat_map In]; [intros []|].
+  destruct (classify rp true k0) as [[e|q]|] eqn:C.
+  - cbn [pres_of_entries flat_map app]. fold (pres_of_entries (entries_of seen rp true ks)).
+    intros H. apply IH in H as (k & Hk & E). exists k. split; [now right|assumption].
+  - destruct (existsb (bytes_eqb q) seen).
+    + intros H. apply IH in H as (k & Hk & E). exists k. split; [now right|assumption].
+    + cbn [pres_of_entries flat_map app In]. fold (pres_of_entries (entries_of (q :: seen) rp true ks)).
+      intros [<- | H]; [exists k0; split; [now left|assumption]|].
+      apply IH in H as (k & Hk & E). exists k. split; [now right|assumption].
+  - intros H. apply IH in H as (k & Hk & E). exists k. split; [now right|assumption].
+Qed.
+
+Lemma head_boundary_app a r : a <> [] -> head_is_boundary (a ++ r) = head_is_boundary a.
+Proof. destruct a; [congruence|reflexivity]. Qed.
+
+Lemma under_app cp a r : a <> [] -> under cp a ++ r = under cp (a ++ r).
+Proof.
+  intros Ha. destruct cp as [|c cp]; cbn [under]; [reflexivity|].
+  rewrite <- app_assoc. cbn [app]. reflexivity.
+Qed.
+
+Lemma slice_under_inv cp rel o : slice_from (prefix_offset cp) (under cp rel) = Ok o -> o = rel.
+Proof.
+  destruct cp as [|c cp].
+  - unfold slice_from. cbn [prefix_offset under Nat.ltb Nat.leb skipn].
+    destruct (head_is_boundary rel); [|discriminate]. intros H. now injection H.
+  - unfold slice_from, prefix_offset, under.
+    replace ((c :: cp) ++ slash :: rel) with (((c :: cp) ++ [slash]) ++ rel) by now rewrite <- app_assoc.
+    replace (S (List.length (c :: cp))) with (List.length ((c :: cp) ++ [slash]))
+      by (rewrite app_length; cbn; lia).
+    rewrite skipn_length_app. destruct (Nat.ltb _ _); [discriminate|].
+    destruct (head_is_boundary rel); [|discriminate]. intros H. now injection H.
+Qed.
+
+Lemma slice_dir_snoc off q : slice_dir off (q ++ [slash]) = slice_from off q.
+Proof.
+  unfold slice_dir. destruct (q ++ [slash]) eqn:Z; [destruct q; discriminate|]. rewrite <- Z.
+  rewrite last_last, removelast_last. reflexivity.
+Qed.
+
+(** the delimited listing of an object root never fails to slice its answers, whatever the keys *)
+Lemma list_dir_ok keys cp root :
+  pfx_ok cp = true -> relb root = true -> head_is_boundary root = true ->
+  exists objs dirs, list_all keys cp root true = Ok (objs, dirs) /\
+    forall o, In o objs <-> exists k, In k keys /\ classify (request_prefix cp root) true k = Some (EKey k)
+                                      /\ slice_from (prefix_offset cp) k = Ok o.
+Proof.
+  intros Hc Hr Hb. unfold list_all, process_page.
+  pose proof (request_prefix_dir cp root Hc Hr) as RP. set (rp := request_prefix cp root) in *.
+  assert (Hne : root <> []) by (now apply relb_inv in Hr).
+  assert (RelOk : forall t, slice_from (prefix_offset cp) (rp ++ t) = Ok ((root ++ [slash]) ++ t)).
+  { intros t. rewrite RP, under_app by (destruct root; discriminate).
+    apply slice_under. rewrite <- app_assoc. now rewrite head_boundary_app. }
+  destruct (map_res_all_ok (slice_from (prefix_offset cp)) (keys_of_entries (entries_of [] rp true keys))) as [objs Eo].
+  { intros k Hk. apply entries_keys_in in Hk as [_ C]. apply classify_key in C as [_ S].
+    apply starts_with_inv in S as [t ->]. eauto. }
+  destruct (map_res_all_ok (slice_dir (prefix_offset cp)) (pres_of_entries (entries_of [] rp true keys))) as [dirs Ed].
+  { intros p Hp. apply entries_pres_in in Hp as (k & _ & C). apply classify_pre in C as (_ & x & ->).
+    rewrite app_assoc, slice_dir_snoc, RelOk. eauto. }
+  exists objs, dirs. rewrite Eo, Ed. split; [reflexivity|].
+  intros o. rewrite (map_res_ok_in _ _ _ Eo). split.
+  - intros (k & Hk & E). apply entries_keys_in in Hk as [H1 H2]. eauto.
+  - intros (k & H1 & H2 & E). exists k. split; [|assumption]. apply entries_keys_in. auto.
+Qed.
+
+Lemma namaste_prefix_relb : relb K_OBJECT_NAMASTE_FILE_PREFIX = true.
+Proof. reflexivity. Qed.
+
+Lemma decl_name_inv name : decl_name_ok name = true ->
+  nameb name = true /\ starts_with K_OBJECT_NAMASTE_FILE_PREFIX name = true /\
+  (List.length K_OBJECT_NAMASTE_FILE_PREFIX < List.length name)%nat.
+Proof.
+  unfold decl_name_ok. intros H. apply andb_true_iff in H as [H H3]. apply andb_true_iff in H as [H1 H2].
+  apply Nat.ltb_lt in H3. auto.
+Qed.
+
+Lemma bk_keys_get x bk : In x (bk_keys bk) -> bk_get x bk <> None.
+Proof.
+  induction bk as [|[k v] r IH]; cbn [bk_keys map fst In bk_get]; [intros []|].
+  destruct (bytes_eqb x k) eqn:E; [discriminate|]. intros [<- | H]; [now rewrite bytes_eqb_refl in E|].
+  now apply IH.
+Qed.
+
+(** find_files on the object root answers, and it finds the declaration file [name] exactly
+    when its key is stored *)
+Lemma find_files_spec bk cp root name :
+  pfx_ok cp = true -> relb root = true -> head_is_boundary root = true -> decl_name_ok name = true ->
+  exists olds, find_files (bk_keys bk) cp root K_OBJECT_NAMASTE_FILE_PREFIX = Ok olds /\
+    (In (join root name) olds <-> bk_get (join cp (join root name)) bk <> None).
+Proof.
+  intros Hc Hr Hb Hn. apply decl_name_inv in Hn as (Hn1 & Hn2 & Hn3).
+  pose proof (nameb_relb _ Hn1) as Hnr. apply nameb_inv in Hn1 as (Hne & Hns & Hnb).
+  unfold find_files. destruct (list_dir_ok (bk_keys bk) cp root Hc Hr Hb) as (objs & dirs & -> & Hobjs).
+  eexists. split; [reflexivity|].
+  pose proof (request_prefix_dir cp root Hc Hr) as RP.
+  assert (Hrne : root <> []) by (now apply relb_inv in Hr).
+  rewrite (join_relb root name Hr Hnr), (join_relb root _ Hr namaste_prefix_relb).
+  rewrite (join_under cp (root ++ slash :: name)) by (auto using relb_app).
+  rewrite filter_In, Hobjs. split.
+  - intros [(k & Hk & C & E) _]. apply classify_key in C as [_ S].
+    destruct (prefix_offset_exact cp root k Hc S) as (rel & -> & _).
+    apply slice_under_inv in E. subst rel. now apply bk_keys_get.
+  - intros H. apply bk_get_in_keys in H. split.
+    + exists (under cp (root ++ slash :: name)). split; [assumption|].
+      assert (E : under cp (root ++ slash :: name) = request_prefix cp root ++ name).
+      { rewrite RP, under_app by (destruct root; discriminate). now rewrite <- app_assoc. }
+      split.
+      * rewrite E. now apply classify_plain.
+      * apply slice_under. now rewrite head_boundary_app.
+    + apply andb_true_iff. split.
+      * apply Nat.ltb_lt. rewrite !app_length. cbn [List.length]. lia.
+      * rewrite starts_with_app_same. cbn [starts_with]. change (Ascii.eqb slash slash) with true. exact Hn2.
+Qed.
+
+(* ------------------------------------------------------------------ requests after the fault has passed *)
+
+Lemma mreq_past fa r eff s : fault_past fa (st_n s) ->
+  mreq fa r eff s = (Ok tt, mkSt (eff (st_b s)) (st_n s + 1) (st_log s ++ [r])).
+Proof.
+  intros H. unfold mreq. destruct fa as [k|]; [|reflexivity].
+  specialize (H k eq_refl). destruct (st_n s =? k) eqn:E; [lia|reflexivity].
+Qed.
+
+(** [fixed T cur x]: key [x] reads in [cur] as it does in the target bucket [T] *)
+Definition fixed (T cur : bucket) (x : bytes) : Prop := bk_get x cur = bk_get x T.
+
+Lemma restore_object_pres fa cp p T s : fault_past fa (st_n s) ->
+  let s' := restore_object fa cp p (bk_get (join cp p) T) s in
+  fault_past fa (st_n s') /\ (forall x, fixed T (st_b s) x -> fixed T (st_b s') x) /\
+  (bk_get (join cp p) T <> None -> fixed T (st_b s') (join cp p)).
+Proof.
+  intros Hp. cbn zeta. unfold restore_object. destruct (bk_get (join cp p) T) as [c|] eqn:E.
+  - unfold put_object_bytes. rewrite mreq_past by assumption. cbn [snd st_n st_b]. split; [|split].
+    + eapply fault_past_mono; [exact Hp|lia].
+    + intros x Hx. unfold fixed in *. rewrite bk_get_put. destruct (bytes_eqb x (join cp p)) eqn:X; [|assumption].
+      apply bytes_eqb_eq in X. subst x. now rewrite E.
+    + intros _. unfold fixed. now rewrite bk_get_put, bytes_eqb_refl, E.
+  - split; [assumption|]. split; [auto|congruence].
+Qed.
+
+Lemma restore_each_pres fa cp T : forall paths s, fault_past fa (st_n s) ->
+  let s' := restore_each fa cp (map (fun p => (p, bk_get (join cp p) T)) paths) s in
+  fault_past fa (st_n s') /\ (forall x, fixed T (st_b s) x -> fixed T (st_b s') x) /\
+  (forall p, In p paths -> bk_get (join cp p) T <> None -> fixed T (st_b s') (join cp p)).
+Proof.
+  induction paths as [|p r IH]; intros s Hp; cbn zeta; cbn [map restore_each].
+  - split; [assumption|]. split; [auto|intros p []].
+  - destruct (restore_object_pres fa cp p T s Hp) as (A1 & A2 & A3). cbn zeta in A1, A2, A3.
+    destruct (IH _ A1) as (B1 & B2 & B3). cbn zeta in B1, B2, B3.
+    split; [assumption|]. split; [auto|]. intros q [<- | Hq] Hn; auto.
+Qed.
+
+Lemma delete_pres fa cp p T s : fault_past fa (st_n s) -> bk_get (join cp p) T = None ->
+  let s' := snd (delete_object fa cp p s) in
+  fault_past fa (st_n s') /\ (forall x, fixed T (st_b s) x -> fixed T (st_b s') x) /\ fixed T (st_b s') (join cp p).
+Proof.
+  intros Hp E. cbn zeta. unfold delete_object. rewrite mreq_past by assumption. cbn [snd st_n st_b]. split; [|split].
+  - eapply fault_past_mono; [exact Hp|lia].
+  - intros x Hx. unfold fixed in *. rewrite bk_get_remove. destruct (bytes_eqb x (join cp p)) eqn:X; [|assumption].
+    apply bytes_eqb_eq in X. subst x. now rewrite E.
+  - unfold fixed. now rewrite bk_get_remove, bytes_eqb_refl, E.
+Qed.
+
+(* ------------------------------------------------------------------ outcome and frame of a request program *)
+
+(** the program ran from [s]: either it succeeded and the fault lies outside its requests, or it
+    failed and the fault lies among them *)
+Definition outcome (fa : option N) (s : st) (rs : res unit * st) : Prop :=
+  st_n s <= st_n (snd rs) /\
+  ((fst rs = Ok tt /\ miss fa (st_n s) (st_n (snd rs))) \/ (fst rs = Err /\ hit fa (st_n s) (st_n (snd rs)))).
+
+(** outside the keys [W] a key reads as before, or it is one of [D] and is gone *)
+Definition frame (W D : list bytes) (b0 b1 : bucket) : Prop :=
+  forall x, ~ In x W -> bk_get x b1 = bk_get x b0 \/ (bk_get x b1 = None /\ In x D).
+
+Lemma frame_refl W D b0 : frame W D b0 b0.
+Proof. intros x _. now left. Qed.
+
+Lemma frame_trans W D b0 b1 b2 : frame W D b0 b1 -> frame W D b1 b2 -> frame W D b0 b2.
+Proof.
+  intros H1 H2 x Hx. destruct (H2 x Hx) as [E | E]; [|now right]. rewrite E. now apply H1.
+Qed.
+
+Lemma step_outcome fa s cost eff rs : step_ok fa s cost eff rs -> outcome fa s rs.
+Proof.
+  intros [(A & B & C & D) | (A & B & C & D)]; unfold outcome.
+  - rewrite C. split; [lia|]. left. auto.
+  - split; [lia|]. right. auto.
+Qed.
+
+Lemma step_put_frame fa s cost key tok rs W D :
+  step_ok fa s cost (bk_put key tok) rs -> In key W -> frame W D (st_b s) (st_b (snd rs)).
+Proof.
+  intros [(A & B & C & E) | (A & B & C & E)] Hin x Hx; rewrite B; [|now left].
+  left. rewrite bk_get_put. destruct (bytes_eqb x key) eqn:X; [|reflexivity].
+  apply bytes_eqb_eq in X. subst x. contradiction.
+Qed.
+
+Lemma step_del_frame fa s cost key rs W D :
+  step_ok fa s cost (bk_remove key) rs -> In key D -> frame W D (st_b s) (st_b (snd rs)).
+Proof.
+  intros [(A & B & C & E) | (A & B & C & E)] Hin x Hx; rewrite B; [|now left].
+  rewrite bk_get_remove. destruct (bytes_eqb x key) eqn:X; [|now left].
+  apply bytes_eqb_eq in X. subst x. right. auto.
+Qed.
+
+Lemma outcome_seq fa s r1 s1 rs2 :
+  outcome fa s (r1, s1) -> r1 = Ok tt -> outcome fa s1 rs2 -> outcome fa s rs2.
+Proof.
+  unfold outcome. cbn [fst snd]. intros (L1 & O1) -> (L2 & O2). split; [lia|].
+  destruct O1 as [(_ & M1) | (X & _)]; [|discriminate].
+  destruct O2 as [(E2 & M2) | (E2 & H2)].
+  - left. split; [assumption|]. eapply miss_join; eauto.
+  - right. split; [assumption|]. eapply hit_widen; [exact H2|lia|lia].
+Qed.
+
+Lemma outcome_fail fa s r1 s1 : outcome fa s (r1, s1) -> r1 <> Ok tt -> outcome fa s (Err, s1).
+Proof.
+  unfold outcome. cbn [fst snd]. intros (L1 & [(E & _) | (E & H)]) Hne; [congruence|]. split; [assumption|]. right. auto.
+Qed.
+
+Lemma outcome_res fa s rs : outcome fa s rs -> fst rs = Ok tt \/ fst rs = Err.
+Proof. intros (_ & [(E & _) | (E & _)]); auto. Qed.
+
+Lemma delete_each_spec fa cp W : forall paths D s, incl (map (join cp) paths) D ->
+  let rs := delete_each fa cp paths s in
+  outcome fa s rs /\ frame W D (st_b s) (st_b (snd rs)).
+Proof.
+  induction paths as [|p r IH]; intros D s Hincl; cbn zeta; cbn [delete_each].
+  - split; [|apply frame_refl]. unfold outcome. cbn [fst snd]. split; [lia|]. left. split; [reflexivity|].
+    intros k _. lia.
+  - unfold delete_object.
+    pose proof (mreq_step fa (RDelete (join cp p)) (bk_remove (join cp p)) s) as H1.
+    pose proof (step_outcome _ _ _ _ _ H1) as O1.
+    assert (F1 : frame W D (st_b s) (st_b (snd (mreq fa (RDelete (join cp p)) (bk_remove (join cp p)) s)))).
+    { eapply step_del_frame; [exact H1|]. apply Hincl. now left. }
+    destruct (mreq fa (RDelete (join cp p)) (bk_remove (join cp p)) s) as [r1 s1]. cbn [snd] in F1.
+    destruct r1 as [[]| |].
+    + destruct (IH D s1) as [O2 F2]; [intros x Hx; apply Hincl; now right|]. cbn zeta in O2, F2. split.
+      * eapply outcome_seq; eauto.
+      * eapply frame_trans; eauto.
+    + split; [|assumption]. eapply outcome_fail; [exact O1|discriminate].
+    + split; [|assumption]. eapply outcome_fail; [exact O1|discriminate].
+Qed.
+
+(** the keys the install writes, and the keys it deletes *)
+Definition new_key (cp : bytes) (i : nv_input) : list bytes :=
+  match new_namaste (nv_root i) (nv_upgrade i) with Some nn => [join cp nn] | None => [] end.
+Definition install_writes (cp : bytes) (i : nv_input) : list bytes := inv_key cp i :: sc_key cp i :: new_key cp i.
+
+Lemma install_version_spec fa cp i olds s :
+  let rs := install_version fa cp i olds s in
+  outcome fa s rs /\ frame (install_writes cp i) (map (join cp) olds) (st_b s) (st_b (snd rs)).
+Proof.
+  cbn zeta. unfold install_version, do_with_rollback, install_body.
+  set (W := install_writes cp i). set (D := map (join cp) olds).
+  pose proof (put_object_file_step fa cp (join (nv_root i) K_INVENTORY_FILE) (uf_len (nv_inv i)) (uf_tok (nv_inv i)) s) as H1.
+  pose proof (step_outcome _ _ _ _ _ H1) as O1.
+  assert (F1 : frame W D (st_b s) (st_b (snd (put_object_file fa cp (join (nv_root i) K_INVENTORY_FILE) (uf_len (nv_inv i)) (uf_tok (nv_inv i)) s)))).
+  { eapply step_put_frame; [exact H1|]. now left. }
+  destruct (put_object_file fa cp (join (nv_root i) K_INVENTORY_FILE) _ _ s) as [r1 s1]. cbn [snd] in F1.
+  destruct r1 as [[]| |]; cbn [rollback fst snd];
+    [|split; [eapply outcome_fail; [exact O1|discriminate]|assumption]
+     |split; [eapply outcome_fail; [exact O1|discriminate]|assumption]].
+  pose proof (put_object_file_step fa cp (join (nv_root i) (uf_rel (nv_sidecar i))) (uf_len (nv_sidecar i)) (uf_tok (nv_sidecar i)) s1) as H2.
+  pose proof (step_outcome _ _ _ _ _ H2) as O2.
+  assert (F2 : frame W D (st_b s1) (st_b (snd (put_object_file fa cp (join (nv_root i) (uf_rel (nv_sidecar i))) (uf_len (nv_sidecar i)) (uf_tok (nv_sidecar i)) s1)))).
+  { eapply step_put_frame; [exact H2|]. right. now left. }
+  destruct (put_object_file fa cp (join (nv_root i) (uf_rel (nv_sidecar i))) _ _ s1) as [r2 s2]. cbn [snd] in F2.
+  pose proof (outcome_seq _ _ _ _ _ O1 eq_refl O2) as O12.
+  pose proof (frame_trans _ _ _ _ _ F1 F2) as F12.
+  destruct r2 as [[]| |]; cbn [rollback fst snd];
+    [|split; [eapply outcome_fail; [exact O12|discriminate]|assumption]
+     |split; [eapply outcome_fail; [exact O12|discriminate]|assumption]].
+  destruct (nv_upgrade i) as [[name content]|] eqn:U; [|split; assumption].
+  unfold put_object_bytes.
+  pose proof (mreq_step fa (RPut (join cp (join (nv_root i) name))) (bk_put (join cp (join (nv_root i) name)) content) s2) as H3.
+  pose proof (step_outcome _ _ _ _ _ H3) as O3.
+  assert (F3 : frame W D (st_b s2) (st_b (snd (mreq fa (RPut (join cp (join (nv_root i) name))) (bk_put (join cp (join (nv_root i) name)) content) s2)))).
+  { eapply step_put_frame; [exact H3|]. right. right. unfold new_key. rewrite U. now left. }
+  destruct (mreq fa (RPut (join cp (join (nv_root i) name))) _ s2) as [r3 s3]. cbn [snd] in F3.
+  pose proof (outcome_seq _ _ _ _ _ O12 eq_refl O3) as O123.
+  pose proof (frame_trans _ _ _ _ _ F12 F3) as F123.
+  destruct r3 as [[]| |];
+    [|split; [eapply outcome_fail; [exact O123|discriminate]|assumption]
+     |split; [eapply outcome_fail; [exact O123|discriminate]|assumption]].
+  destruct (delete_each_spec fa cp W
+              (filter (fun o => negb (is_path o (new_namaste (nv_root i) (Some (name, content))))) olds) D s3) as [O4 F4].
+  { intros x Hx. apply in_map_iff in Hx as (o & <- & Ho). apply filter_In in Ho as [Ho _]. now apply in_map. }
+  cbn zeta in O4, F4. split.
+  - eapply outcome_seq; [exact O123|reflexivity|exact O4].
+  - eapply frame_trans; eauto.
+Qed.
+
+Lemma get_each_spec cp : forall paths s,
+  get_each cp paths s =
+  (map (fun p => (p, bk_get (join cp p) (st_b s))) paths,
+   mkSt (st_b s) (st_n s) (st_log s ++ map (fun p => RGet (join cp p)) paths)).
+Proof.
+  induction paths as [|p r IH]; intros s; cbn [get_each map].
+  - rewrite app_nil_r. now destruct s.
+  - unfold get_object. rewrite IH. cbn [st_b st_n st_log]. rewrite <- app_assoc. reflexivity.
+Qed.
+
+(* ------------------------------------------------------------------ undoing a failed install (commit 9053efb) *)
+
+Lemma in_existsb_eqb x l : existsb (bytes_eqb x) l = true <-> In x l.
+Proof.
+  rewrite existsb_exists. split.
+  - intros (y & Hy & E). apply bytes_eqb_eq in E. now subst.
+  - intros H. exists x. split; [assumption|apply bytes_eqb_refl].
+Qed.
+
+(** [T] = the bucket as it was when the install began.  If the fault has passed, the new
+    declaration is found by the listing exactly when it was stored, and the root inventory
+    pair existed, then after the undo every key outside the uploaded ones reads as in [T],
+    and the uploaded ones are gone *)
+Lemma undo_install_spec fa cp i olds T uploaded s :
+  fault_past fa (st_n s) ->
+  nv_old_sidecar i = uf_rel (nv_sidecar i) ->
+  bk_get (inv_key cp i) T <> None -> bk_get (sc_key cp i) T <> None ->
+  (forall nn, new_namaste (nv_root i) (nv_upgrade i) = Some nn -> (In nn olds <-> bk_get (join cp nn) T <> None)) ->
+  frame (install_writes cp i) (map (join cp) olds) T (st_b s) ->
+  let s' := undo_install fa cp i olds (map (fun p => (p, bk_get (join cp p) T)) olds)
+                         (bk_get (inv_key cp i) T) (bk_get (sc_key cp i) T) uploaded s in
+  forall x, bk_get x (st_b s') = if existsb (bytes_eqb x) (map (join cp) uploaded) then None else bk_get x T.
+Proof.
+  intros Hp Hsc Hinv Hscs Hnew Hfr. cbn zeta. unfold undo_install. rewrite Hsc.
+  fold (inv_key cp i). fold (sc_key cp i).
+  (* step a: the new declaration *)
+  set (s1 := match new_namaste (nv_root i) (nv_upgrade i) with
+             | Some nn => if existsb (bytes_eqb nn) olds then s else snd (delete_object fa cp nn s)
+             | None => s end).
+  assert (A : fault_past fa (st_n s1) /\ (forall x, fixed T (st_b s) x -> fixed T (st_b s1) x) /\
+              (forall nn, new_namaste (nv_root i) (nv_upgrade i) = Some nn -> ~ In nn olds -> fixed T (st_b s1) (join cp nn))).
+  { subst s1. destruct (new_namaste (nv_root i) (nv_upgrade i)) as [nn|] eqn:N.
+    - destruct (existsb (bytes_eqb nn) olds) eqn:X.
+      + split; [assumption|]. split; [auto|]. intros nn' E Hn. injection E as <-. apply in_existsb_eqb in X. contradiction.
+      + assert (E0 : bk_get (join cp nn) T = None).
+        { destruct (bk_get (join cp nn) T) eqn:G; [|reflexivity]. exfalso.
+          assert (In nn olds) as Hin by (apply (Hnew nn eq_refl); congruence).
+          apply in_existsb_eqb in Hin. congruence. }
+        destruct (delete_pres fa cp nn T s Hp E0) as (B1 & B2 & B3). cbn zeta in B1, B2, B3.
+        split; [assumption|]. split; [assumption|]. intros nn' E _. now injection E as <-.
+    - split; [assumption|]. split; [auto|]. intros nn' E. discriminate. }
+  destruct A as (A1 & A2 & A3).
+  (* step b: the old declarations *)
+  destruct (restore_each_pres fa cp T olds s1 A1) as (B1 & B2 & B3). cbn zeta in B1, B2, B3.
+  set (s2 := restore_each fa cp (map (fun p => (p, bk_get (join cp p) T)) olds) s1) in *.
+  (* step c: root inventory and sidecar *)
+  destruct (restore_object_pres fa cp (join (nv_root i) K_INVENTORY_FILE) T s2 B1) as (C1 & C2 & C3).
+  cbn zeta in C1, C2, C3. fold (inv_key cp i) in C1, C2, C3.
+  set (s3 := restore_object fa cp (join (nv_root i) K_INVENTORY_FILE) (bk_get (inv_key cp i) T) s2) in *.
+  destruct (restore_object_pres fa cp (join (nv_root i) (uf_rel (nv_sidecar i))) T s3 C1) as (D1 & D2 & D3).
+  cbn zeta in D1, D2, D3. fold (sc_key cp i) in D1, D2, D3.
+  set (s4 := restore_object fa cp (join (nv_root i) (uf_rel (nv_sidecar i))) (bk_get (sc_key cp i) T) s3) in *.
+  intros x. rewrite rollback_spec by assumption.
+  destruct (existsb (bytes_eqb x) (map (join cp) uploaded)); [reflexivity|].
+  change (fixed T (st_b s4) x).
+  destruct (bytes_eqb x (sc_key cp i)) eqn:Xs; [apply bytes_eqb_eq in Xs; subst x; auto|].
+  destruct (bytes_eqb x (inv_key cp i)) eqn:Xi; [apply bytes_eqb_eq in Xi; subst x; auto|].
+  apply bytes_eqb_false in Xs, Xi.
+  apply D2, C2.
+  destruct (new_namaste (nv_root i) (nv_upgrade i)) as [nn|] eqn:N.
+  - destruct (bytes_eqb x (join cp nn)) eqn:Xn.
+    + apply bytes_eqb_eq in Xn. subst x.
+      destruct (existsb (bytes_eqb nn) olds) eqn:X.
+      * apply in_existsb_eqb in X. apply B3; [assumption|]. now apply (Hnew nn eq_refl).
+      * apply B2, (A3 nn eq_refl). intros Hin. apply in_existsb_eqb in Hin. congruence.
+    + apply bytes_eqb_false in Xn.
+      destruct (Hfr x) as [E | [E Hin]].
+      { unfold install_writes, new_key. rewrite N. cbn [In]. intuition congruence. }
+      * apply B2, A2. exact E.
+      * apply in_map_iff in Hin as (o & <- & Ho).
+        destruct (bk_get (join cp o) T) eqn:G.
+        -- apply B3; [assumption|congruence].
+        -- apply B2, A2. unfold fixed. congruence.
+  - destruct (Hfr x) as [E | [E Hin]].
+    { unfold install_writes, new_key. rewrite N. cbn [In]. intuition congruence. }
+    + apply B2, A2. exact E.
+    + apply in_map_iff in Hin as (o & <- & Ho).
+      destruct (bk_get (join cp o) T) eqn:G.
+      * apply B3; [assumption|congruence].
+      * apply B2, A2. unfold fixed. congruence.
+Qed.
+
+Lemma restore_object_n_mono fa cp p c s : st_n s <= st_n (restore_object fa cp p c s).
+Proof. unfold restore_object. destruct c; [|lia]. unfold put_object_bytes. rewrite mreq_n. lia. Qed.
+
+Lemma restore_each_n_mono fa cp : forall prev s, st_n s <= st_n (restore_each fa cp prev s).
+Proof.
+  induction prev as [|[p c] r IH]; intros s; cbn [restore_each]; [lia|].
+  specialize (IH (restore_object fa cp p c s)). pose proof (restore_object_n_mono fa cp p c s). lia.
+Qed.
+
+Lemma undo_install_n_mono fa cp i olds prev pi ps uploaded s :
+  st_n s <= st_n (undo_install fa cp i olds prev pi ps uploaded s).
+Proof.
+  unfold undo_install.
+  set (s1 := match new_namaste (nv_root i) (nv_upgrade i) with
+             | Some nn => if existsb (bytes_eqb nn) olds then s else snd (delete_object fa cp nn s)
+             | None => s end).
+  assert (st_n s <= st_n s1).
+  { subst s1. destruct (new_namaste _ _); [|lia]. destruct (existsb _ _); [lia|].
+    unfold delete_object. rewrite mreq_n. lia. }
+  pose proof (restore_each_n_mono fa cp prev s1).
+  pose proof (restore_object_n_mono fa cp (join (nv_root i) K_INVENTORY_FILE) pi (restore_each fa cp prev s1)).
+  pose proof (restore_object_n_mono fa cp (join (nv_root i) (nv_old_sidecar i)) ps
+                (restore_object fa cp (join (nv_root i) K_INVENTORY_FILE) pi (restore_each fa cp prev s1))).
+  pose proof (rollback_n_mono fa cp uploaded
+                (restore_object fa cp (join (nv_root i) (nv_old_sidecar i)) ps
+                   (restore_object fa cp (join (nv_root i) K_INVENTORY_FILE) pi (restore_each fa cp prev s1)))).
+  lia.
+Qed.
+
+(* ------------------------------------------------------------------ write_new_version after the upload *)
+
+Lemma finish_version_spec fa cp i b0 uploaded s1 :
+  nv_wf cp i -> agrees cp b0 uploaded (st_b s1) ->
+  (forall p, In p uploaded -> bk_get (join cp p) b0 = None) ->
+  bk_get (inv_key cp i) b0 <> None -> bk_get (sc_key cp i) b0 <> None ->
+  let rs := finish_version fa cp i uploaded s1 in
+  (fst rs = Ok tt /\ miss fa (st_n s1) (st_n (snd rs))) \/
+  (fst rs = Err /\ hit fa (st_n s1) (st_n (snd rs)) /\ forall x, bk_get x (st_b (snd rs)) = bk_get x b0).
+Proof.
+  intros Hwf Hag Habs Hinv Hsc. cbn zeta. destruct Hwf as [Hc Hr Hb Hv Hf Hside Hdecl].
+  set (T := st_b s1).
+  assert (Out : forall x, existsb (bytes_eqb x) (map (join cp) uploaded) = false -> bk_get x T = bk_get x b0).
+  { intros x X. apply Hag. intros Hin. apply in_existsb_eqb in Hin. congruence. }
+  assert (In_ : forall x, existsb (bytes_eqb x) (map (join cp) uploaded) = true -> bk_get x b0 = None).
+  { intros x X. apply in_existsb_eqb in X. apply in_map_iff in X as (p & <- & Hp). now apply Habs. }
+  assert (Tinv : bk_get (inv_key cp i) T <> None).
+  { destruct (existsb (bytes_eqb (inv_key cp i)) (map (join cp) uploaded)) eqn:X.
+    - apply In_ in X. congruence.
+    - now rewrite (Out _ X). }
+  assert (Tsc : bk_get (sc_key cp i) T <> None).
+  { destruct (existsb (bytes_eqb (sc_key cp i)) (map (join cp) uploaded)) eqn:X.
+    - apply In_ in X. congruence.
+    - now rewrite (Out _ X). }
+  unfold finish_version, get_object. cbv beta iota. cbn [st_b st_n st_log]. fold T.
+  assert (Olds : exists olds,
+            (match nv_upgrade i with
+             | Some _ => find_files (bk_keys T) cp (nv_root i) K_OBJECT_NAMASTE_FILE_PREFIX
+             | None => Ok []
+             end) = Ok olds /\
+            (forall nn, new_namaste (nv_root i) (nv_upgrade i) = Some nn -> (In nn olds <-> bk_get (join cp nn) T <> None))).
+  { destruct (nv_upgrade i) as [[name content]|] eqn:U.
+    - destruct (find_files_spec T cp (nv_root i) name Hc Hr Hb (Hdecl _ _ eq_refl)) as (olds & E & Hiff).
+      exists olds. split; [assumption|]. cbn [new_namaste]. intros nn H. injection H as <-. exact Hiff.
+    - exists []. split; [reflexivity|]. cbn [new_namaste]. discriminate. }
+  destruct Olds as (olds & -> & Hnew). rewrite get_each_spec. cbv beta iota. cbn [st_b st_n st_log]. fold T.
+  match goal with |- context [install_version fa cp i olds ?s] => set (s4 := s) end.
+  destruct (install_version_spec fa cp i olds s4) as [O F]. cbn zeta in O, F.
+  destruct (install_version fa cp i olds s4) as [r5 s5]. unfold outcome in O. cbn [fst snd] in O, F.
+  assert (N4 : st_n s4 = st_n s1) by reflexivity. assert (B4 : st_b s4 = T) by reflexivity.
+  rewrite N4 in O. rewrite B4 in F. destruct O as (L & [(-> & M) | (-> & H)]).
+  - left. cbn [fst snd]. auto.
+  - right. cbn [fst snd]. split; [reflexivity|]. split.
+    + eapply hit_widen; [exact H|lia|]. apply undo_install_n_mono.
+    + intros x. fold (inv_key cp i). rewrite Hside. fold (sc_key cp i).
+      rewrite (undo_install_spec fa cp i olds T uploaded s5); auto.
+      * destruct (existsb (bytes_eqb x) (map (join cp) uploaded)) eqn:X; [symmetry; now apply In_|now apply Out].
+      * eapply hit_past; exact H.
+Qed.
+
+(** every run of a version commit from a ready bucket: it succeeds and no request was failed, or
+    it reports an error, a request was failed, and every key reads as before the commit *)
+Lemma version_commit_cases fa cp i bk :
+  nv_wf cp i -> nv_ready cp i bk ->
+  let out := write_new_version fa cp i (init_st bk) in
+  (fst out = Ok tt /\ miss fa 0 (st_n (snd out))) \/
+  (fst out = Err /\ hit fa 0 (st_n (snd out)) /\ forall x, bk_get x (st_b (snd out)) = bk_get x bk).
+Proof.
+  intros Hwf [Hclear Hinv Hsc]. cbn zeta. pose proof Hwf as [Hc Hr Hb Hv Hf Hside Hdecl].
+  unfold write_new_version. fold (vdst_of i). cbn [init_st st_b].
+  assert (listing_empty (list_all (bk_keys bk) cp (vdst_of i) true) = Ok true) as ->
+    by (apply listing_empty_iff; exact Hclear).
+  pose proof (upload_all_spec fa cp (vdst_of i) (nv_files i) bk Hc (relb_join _ _ Hr Hv) Hf Hclear) as H.
+  cbn zeta in H. destruct (upload_all fa cp (vdst_of i) (nv_files i) (init_st bk)) as [r1 s1].
+  cbn [fst snd] in H. destruct H as [(up & -> & Hag & Habs & Hn & Hm) | (-> & Hb0 & Hh)].
+  - pose proof (finish_version_spec fa cp i bk up s1 Hwf Hag Habs Hinv Hsc) as F. cbn zeta in F.
+    destruct (finish_version fa cp i up s1) as [r2 s2]. cbn [fst snd] in F |- *.
+    destruct F as [(-> & M) | (-> & Hh & Hb0)].
+    + left. split; [reflexivity|]. rewrite <- Hn in Hm.
+      assert (st_n s1 <= st_n s2 \/ st_n s2 < st_n s1) as [L | L] by lia.
+      * eapply miss_join; [exact Hm|exact M|lia|lia].
+      * intros k E. destruct (Hm k E); lia.
+    + right. split; [reflexivity|]. split; [|assumption]. eapply hit_widen; [exact Hh|lia|lia].
+  - right. cbn [fst snd]. auto.
+Qed.
+
+Lemma clear_lookup cp dst bk x : clear_under cp dst bk -> starts_with (request_prefix cp dst) x = true -> bk_get x bk = None.
+Proof. intros H. now apply clear_get_none. Qed.
+
+(** C16, second half: whichever request [k] of a version commit fails (upload, root inventory,
+    root sidecar, new declaration, DELETE of an old declaration; PUT and multipart alike): if the
+    request was reached the commit reports an error and every key of the bucket reads as before
+    the commit - in particular nothing is left below <root>/vN/; if it was not reached (the
+    commit has fewer requests) the commit succeeds *)
+Lemma fault_cleanup_version cp i bk k :
+  nv_wf cp i -> nv_ready cp i bk ->
+  let out := write_new_version (Some k) cp i (init_st bk) in
+  (k < st_n (snd out) ->
+     fst out = Err /\
+     (forall x, bk_get x (st_b (snd out)) = bk_get x bk) /\
+     (forall x, starts_with (request_prefix cp (vdst_of i)) x = true -> bk_get x (st_b (snd out)) = None)) /\
+  (st_n (snd out) <= k -> fst out = Ok tt).
+Proof.
+  intros Hwf Hrd. cbn zeta. pose proof (version_commit_cases (Some k) cp i bk Hwf Hrd) as H. cbn zeta in H.
+  destruct H as [(E & M) | (E & (k' & Ek & L1 & L2) & Hb)].
+  - split; [|auto]. intros L. destruct (M k eq_refl); lia.
+  - injection Ek as <-. split; [|lia]. intros _. split; [assumption|]. split; [assumption|].
+    intros x Hx. rewrite Hb. eapply clear_lookup; [apply (rd_clear _ _ _ Hrd)|assumption].
+Qed.
+
+(** the fault-free commit succeeds *)
+Lemma version_commit_succeeds cp i bk :
+  nv_wf cp i -> nv_ready cp i bk -> fst (write_new_version None cp i (init_st bk)) = Ok tt.
+Proof.
+  intros Hwf Hrd. pose proof (version_commit_cases None cp i bk Hwf Hrd) as H. cbn zeta in H.
+  destruct H as [(E & _) | (_ & (k & Ek & _) & _)]; [assumption|discriminate].
+Qed.
+
+Lemma ready_lookup cp i bk bk' :
+  (forall x, bk_get x bk' = bk_get x bk) -> nv_ready cp i bk -> nv_ready cp i bk'.
+Proof.
+  intros H [Hc Hi Hs]. constructor.
+  - intros k Hk. apply Hc. apply bk_get_in_keys. rewrite <- H. now apply bk_keys_get.
+  - now rewrite H.
+  - now rewrite H.
+Qed.
+
+(** ... and so does the retry after a failed commit: the bucket is ready again *)
+Lemma retry_succeeds cp i bk k :
+  nv_wf cp i -> nv_ready cp i bk ->
+  let out := write_new_version (Some k) cp i (init_st bk) in
+  fst out <> Ok tt ->
+  nv_ready cp i (st_b (snd out)) /\ fst (write_new_version None cp i (init_st (st_b (snd out)))) = Ok tt.
+Proof.
+  intros Hwf Hrd. cbn zeta. intros Hne.
+  pose proof (version_commit_cases (Some k) cp i bk Hwf Hrd) as H. cbn zeta in H.
+  destruct H as [(E & _) | (_ & _ & Hb)]; [congruence|].
+  assert (R : nv_ready cp i (st_b (snd (write_new_version (Some k) cp i (init_st bk))))) by (eapply ready_lookup; eauto).
+  split; [assumption|]. now apply version_commit_succeeds.
+Qed.
+
+Lemma fault_cleanup_object cp root files bk k :
+  pfx_ok cp = true -> relb root = true -> Forall (fun f => relb (uf_rel f) = true) files ->
+  clear_under cp root bk -> k < upload_cost files ->
+  let out := write_new_object (Some k) cp root files (init_st bk) in
+  fst out = Err /\ (forall x, bk_get x (st_b (snd out)) = bk_get x bk).
+Proof.
+  intros Hc Hr Hf Hclear Hk. cbn zeta. unfold write_new_object. cbn [init_st st_b].
+  assert (listing_empty (list_all (bk_keys bk) cp root true) = Ok true) as ->
+    by (apply listing_empty_iff; exact Hclear).
+  pose proof (upload_all_spec (Some k) cp root files bk Hc Hr Hf Hclear) as H.
+  cbn zeta in H. destruct (upload_all (Some k) cp root files (init_st bk)) as [r1 s1].
+  cbn [fst snd] in H. destruct H as [(up & -> & Hag & Habs & Hn & Hm) | (-> & Hb & _)].
+  - exfalso. destruct (Hm k eq_refl); lia.
+  - cbn [fst snd]. auto.
+Qed.
+
+(** a refused commit (something already lies under the destination prefix) issues no request *)
+Lemma write_new_version_refused fa cp i s :
+  listing_empty (list_all (bk_keys (st_b s)) cp (vdst_of i) true) <> Ok true ->
+  fst (write_new_version fa cp i s) <> Ok tt /\ snd (write_new_version fa cp i s) = s.
+Proof.
+  intros H. unfold write_new_version. fold (vdst_of i).
+  destruct (listing_empty _) as [[|]| |]; [congruence| | |]; cbn [fst snd]; split; (discriminate || reflexivity).
+Qed.
+
+(* ------------------------------------------------------------------ fault-free runs: the exact request sequence *)
+
+Lemma st_eta s : s = mkSt (st_b s) (st_n s) (st_log s).
+Proof. now destruct s. Qed.
+
+Lemma mreq_none r eff s : mreq None r eff s = (Ok tt, mkSt (eff (st_b s)) (st_n s + 1) (st_log s ++ [r])).
+Proof. reflexivity. Qed.
+
+Lemma mp_parts_none key : forall todo i s,
+  mp_parts None key i todo s = (Ok tt, mkSt (st_b s) (st_n s + N.of_nat todo) (st_log s ++ part_reqs key i todo)).
+Proof.
+  induction todo as [|t IH]; intros i s.
+  - cbn [mp_parts part_reqs]. rewrite app_nil_r. replace (st_n s + N.of_nat 0) with (st_n s) by lia.
+    now rewrite <- st_eta.
+  - cbn [mp_parts part_reqs]. rewrite mreq_none, IH. cbn [st_b st_n st_log]. unfold same.
+    rewrite <- app_assoc. cbn [app]. do 2 f_equal. lia.
+Qed.
+
+Lemma put_object_file_none cp path len tok s :
+  put_object_file None cp path len tok s =
+  (Ok tt, mkSt (bk_put (join cp path) tok (st_b s)) (st_n s + put_cost len) (st_log s ++ put_reqs (join cp path) len)).
+Proof.
+  unfold put_object_file, put_cost, put_reqs. destruct (K_S3_PART_SIZE <? len).
+  - unfold multipart_put. rewrite mreq_none, mp_parts_none, mreq_none. cbn [st_b st_n st_log]. unfold same.
+    rewrite <- !app_assoc. cbn [app]. do 2 f_equal. lia.
+  - now rewrite mreq_none.
+Qed.
+
+Definition upload_reqs (cp dst : bytes) (files : list ufile) : list req :=
+  flat_map (fun f => put_reqs (join cp (join dst (uf_rel f))) (uf_len f)) files.
+Definition upload_bucket (cp dst : bytes) (files : list ufile) (bk : bucket) : bucket :=
+  fold_left (fun b0 f => bk_put (join cp (join dst (uf_rel f))) (uf_tok f) b0) files bk.
+
+Lemma upload_loop_none cp dst : forall files done s,
+  upload_loop None cp dst files done s =
+  ((Ok tt, done ++ map (fun f => join dst (uf_rel f)) files),
+   mkSt (upload_bucket cp dst files (st_b s)) (st_n s + upload_cost files) (st_log s ++ upload_reqs cp dst files)).
+Proof.
+  induction files as [|f fs IH]; intros done s.
+  - cbn [upload_loop map upload_bucket fold_left upload_cost fold_right upload_reqs flat_map].
+    rewrite !app_nil_r. replace (st_n s + 0) with (st_n s) by lia. now rewrite <- st_eta.
+  - cbn [upload_loop]. rewrite put_object_file_none, IH. cbn [st_b st_n st_log map].
+    cbn [upload_bucket fold_left upload_cost fold_right upload_reqs flat_map].
+    rewrite <- !app_assoc. cbn [app]. do 2 f_equal. fold (upload_cost fs). lia.
+Qed.
+
+Lemma delete_each_none cp : forall olds s,
+  delete_each None cp olds s =
+  (Ok tt, mkSt (fold_left (fun b0 o => bk_remove (join cp o) b0) olds (st_b s)) (st_n s + N.of_nat (List.length olds))
+               (st_log s ++ map (fun o => RDelete (join cp o)) olds)).
+Proof.
+  induction olds as [|o r IH]; intros s.
+  - cbn [delete_each fold_left map List.length]. rewrite app_nil_r.
+    replace (st_n s + N.of_nat 0) with (st_n s) by lia. now rewrite <- st_eta.
+  - cbn [delete_each]. unfold delete_object. rewrite mreq_none, IH. cbn [st_b st_n st_log fold_left map List.length].
+    rewrite <- app_assoc. cbn [app]. do 2 f_equal. lia.
+Qed.
+
+(** what the declaration swap may send: deletes, and the PUT of the new declaration *)
+Definition swap_req_ok (cp root : bytes) (up : option (bytes * bytes)) (r : req) : Prop :=
+  (stores_key r = None /\ is_get r = false) \/
+  exists name content, up = Some (name, content) /\ r = RPut (join cp (join root name)).
+
+Lemma part_reqs_keys key : forall todo i, Forall (fun r => req_key r = key) (part_reqs key i todo).
+Proof. induction todo as [|t IH]; intros i; cbn [part_reqs]; constructor; auto. Qed.
+
+Lemma put_reqs_keys key len : Forall (fun r => req_key r = key) (put_reqs key len).
+Proof.
+  unfold put_reqs. destruct (K_S3_PART_SIZE <? len).
+  - constructor; [reflexivity|]. apply Forall_app. split; [apply part_reqs_keys|repeat constructor].
+  - repeat constructor.
+Qed.
+
+Lemma upload_reqs_under cp dst files :
+  pfx_ok cp = true -> relb dst = true -> Forall (fun f => relb (uf_rel f) = true) files ->
+  Forall (fun r => starts_with (request_prefix cp dst) (req_key r) = true) (upload_reqs cp dst files).
+Proof.
+  intros Hc Hd Hf. unfold upload_reqs. rewrite Forall_forall in *. intros r Hr.
+  apply in_flat_map in Hr as (f & Hin & Hr).
+  pose proof (put_reqs_keys (join cp (join dst (uf_rel f))) (uf_len f)) as K. rewrite Forall_forall in K.
+  rewrite (K _ Hr). apply under_prefix; auto.
+Qed.
+
+Lemma upload_reqs_app cp dst a c : upload_reqs cp dst (a ++ c) = upload_reqs cp dst a ++ upload_reqs cp dst c.
+Proof. unfold upload_reqs. apply flat_map_app. Qed.
+
+(** the requests of finish_version when nothing fails: the GETs of what will be replaced, the
+    root inventory, the root sidecar, then (upgrade only) the declaration swap *)
+Lemma finish_version_none_log cp i uploaded s1 :
+  nv_wf cp i ->
+  let out := finish_version None cp i uploaded s1 in
+  exists gets tail,
+    st_log (snd out) = st_log s1 ++ gets ++ put_reqs (inv_key cp i) (uf_len (nv_inv i))
+                         ++ put_reqs (sc_key cp i) (uf_len (nv_sidecar i)) ++ tail /\
+    Forall (fun r => is_get r = true) gets /\
+    Forall (swap_req_ok cp (nv_root i) (nv_upgrade i)) tail /\
+    (nv_upgrade i = None -> tail = [] /\ gets = [RGet (inv_key cp i); RGet (sc_key cp i)]).
+Proof.
+  intros [Hc Hr Hb Hv Hf Hside Hdecl]. cbn zeta. unfold finish_version, get_object. cbv beta iota.
+  cbn [st_b st_n st_log]. rewrite Hside. fold (inv_key cp i). fold (sc_key cp i).
+  destruct (nv_upgrade i) as [[name content]|] eqn:U.
+  - destruct (find_files_spec (st_b s1) cp (nv_root i) name Hc Hr Hb (Hdecl _ _ eq_refl)) as (olds & -> & _).
+    rewrite get_each_spec. cbv beta iota. cbn [st_b st_n st_log].
+    unfold install_version, do_with_rollback, install_body. rewrite U.
+    rewrite !put_object_file_none. cbn [st_b st_n st_log fst snd].
+    unfold put_object_bytes. rewrite mreq_none, delete_each_none. cbn [st_b st_n st_log fst snd].
+    fold (inv_key cp i). fold (sc_key cp i).
+    exists (RGet (inv_key cp i) :: RGet (sc_key cp i) :: map (fun p => RGet (join cp p)) olds).
+    exists (RPut (join cp (join (nv_root i) name)) ::
+            map (fun o => RDelete (join cp o))
+                (filter (fun o => negb (is_path o (new_namaste (nv_root i) (Some (name, content))))) olds)).
+    split; [rewrite <- !app_assoc; reflexivity|]. split.
+    + constructor; [reflexivity|]. constructor; [reflexivity|]. rewrite Forall_forall. intros r Hin.
+      apply in_map_iff in Hin as (p & <- & _). reflexivity.
+    + split; [|discriminate]. constructor; [right; eauto|]. rewrite Forall_forall. intros r Hin.
+      apply in_map_iff in Hin as (o & <- & _). left. auto.
+  - cbn [get_each]. unfold install_version, do_with_rollback, install_body. rewrite U.
+    rewrite !put_object_file_none. cbn [st_b st_n st_log fst snd].
+    fold (inv_key cp i). fold (sc_key cp i).
+    exists [RGet (inv_key cp i); RGet (sc_key cp i)], [].
+    split; [rewrite <- !app_assoc; rewrite app_nil_r; reflexivity|]. split.
+    + repeat constructor.
+    + split; [constructor|auto].
+Qed.
+
+(** C16, first half: in a fault-free commit of a new version the requests are: everything below
+    <root>/vN/ (the version's own inventory and sidecar last), then the reads of what is about
+    to be replaced, then the root inventory.json, then the root sidecar, then (upgrade only)
+    the declaration swap; and the commit succeeds *)
+Lemma root_inventory_last_version cp i bk :
+  nv_wf cp i -> nv_ready cp i bk ->
+  let out := write_new_version None cp i (init_st bk) in
+  let up := upload_reqs cp (vdst_of i) (upload_order (nv_files i)) in
+  exists gets tail,
+    fst out = Ok tt /\
+    st_log (snd out) = up ++ gets ++ put_reqs (inv_key cp i) (uf_len (nv_inv i))
+                          ++ put_reqs (sc_key cp i) (uf_len (nv_sidecar i)) ++ tail /\
+    Forall (fun r => starts_with (request_prefix cp (vdst_of i)) (req_key r) = true) up /\
+    Forall (fun r => is_get r = true) gets /\
+    Forall (swap_req_ok cp (nv_root i) (nv_upgrade i)) tail /\
+    (nv_upgrade i = None -> tail = [] /\ gets = [RGet (inv_key cp i); RGet (sc_key cp i)]).
+Proof.
+  intros Hwf Hrd. cbn zeta. pose proof (version_commit_succeeds cp i bk Hwf Hrd) as Hok.
+  pose proof Hwf as [Hc Hr Hb Hv Hf Hside Hdecl]. destruct Hrd as [Hclear _ _].
+  revert Hok. unfold write_new_version. fold (vdst_of i). cbn [init_st st_b].
+  assert (listing_empty (list_all (bk_keys bk) cp (vdst_of i) true) = Ok true) as ->
+    by (apply listing_empty_iff; exact Hclear).
+  unfold upload_all, do_with_rollback. rewrite upload_loop_none. cbn [app st_b st_n st_log]. intros Hok.
+  match goal with |- context [finish_version None cp i ?u ?s] =>
+    destruct (finish_version_none_log cp i u s Hwf) as (gets & tail & E & G1 & G2 & G3) end.
+  cbn zeta in E. cbn [st_log app] in E.
+  exists gets, tail. split; [exact Hok|]. split; [exact E|]. split; [|auto].
+  apply upload_reqs_under; auto; [now apply relb_join|now apply upload_order_forall].
+Qed.
+
+(** the root inventory key does not lie below the version prefix *)
+Lemma inv_key_not_under cp root vstr name :
+  pfx_ok cp = true -> relb root = true -> relb vstr = true -> relb name = true ->
+  starts_with (vstr ++ [slash]) name = false ->
+  starts_with (request_prefix cp (join root vstr)) (join cp (join root name)) = false.
+Proof.
+  intros Hc Hr Hv Hn Hs. unfold request_prefix, join_ts.
+  rewrite (join_relb root vstr), (join_relb root name) by assumption.
+  rewrite !join_under by (auto using relb_app).
+  assert (L : last_is_slash (under cp (root ++ slash :: vstr)) = false /\ under cp (root ++ slash :: vstr) <> []).
+  { pose proof (relb_app _ _ Hr Hv) as R. apply relb_inv in R as (R1 & _ & R3).
+    destruct cp as [|c cp]; cbn [under]; [auto|]. split; [|discriminate].
+    destruct (root ++ slash :: vstr) as [|d t]; [congruence|].
+    change (c :: cp ++ slash :: d :: t) with ((c :: cp ++ [slash]) ++ d :: t). now rewrite last_is_slash_app. }
+  destruct L as [L1 L2]. apply is_nil_false in L2. rewrite L1, L2. cbn [negb andb].
+  destruct cp as [|c cp]; cbn [under].
+  - replace ((root ++ slash :: vstr) ++ [slash]) with (root ++ (slash :: vstr ++ [slash]))
+      by (now rewrite <- app_assoc).
+    rewrite starts_with_app_same. cbn [starts_with]. change (Ascii.eqb slash slash) with true. exact Hs.
+  - replace (((c :: cp) ++ slash :: root ++ slash :: vstr) ++ [slash])
+      with ((c :: cp) ++ (slash :: root ++ (slash :: vstr ++ [slash])))
+      by (rewrite <- !app_assoc; cbn [app]; now rewrite <- app_assoc).
+    rewrite (starts_with_app_same (c :: cp)). cbn [starts_with]. change (Ascii.eqb slash slash) with true.
+    cbn [andb]. rewrite starts_with_app_same. cbn [starts_with]. change (Ascii.eqb slash slash) with true. exact Hs.
+Qed.
+
+(** new objects (commit 4953bf6): whatever the directory walk yields, the requests are those of
+    the files that are neither the root inventory nor a root sidecar (in walk order: the object
+    declaration, everything below v1/, ...), then the root inventory.json, then its sidecar *)
+Lemma root_inventory_last_object cp root files bk :
+  clear_under cp root bk ->
+  let out := write_new_object None cp root files (init_st bk) in
+  exists others invs sidecars,
+    fst out = Ok tt /\
+    st_log (snd out) = upload_reqs cp root others ++ upload_reqs cp root invs ++ upload_reqs cp root sidecars /\
+    Permutation (others ++ invs ++ sidecars) files /\
+    Forall (fun f => uf_rel f <> K_INVENTORY_FILE /\ starts_with K_INVENTORY_SIDECAR_PREFIX (uf_rel f) = false) others /\
+    Forall (fun f => uf_rel f = K_INVENTORY_FILE) invs /\
+    Forall (fun f => starts_with K_INVENTORY_SIDECAR_PREFIX (uf_rel f) = true /\ uf_rel f <> K_INVENTORY_FILE) sidecars.
+Proof.
+  intros Hclear. cbn zeta. unfold write_new_object. cbn [init_st st_b].
+  assert (listing_empty (list_all (bk_keys bk) cp root true) = Ok true) as ->
+    by (apply listing_empty_iff; exact Hclear).
+  unfold upload_all, do_with_rollback. rewrite upload_loop_none. cbn [fst snd st_log app].
+  exists (filter (rank_is 0) files), (filter (rank_is 1) files), (filter (rank_is 2) files).
+  split; [reflexivity|]. split; [unfold upload_order; now rewrite !upload_reqs_app|].
+  split; [apply upload_order_perm|].
+  split; [|split]; rewrite Forall_forall; intros f Hf; apply filter_In in Hf as [_ Hf].
+  - now apply rank_0_name.
+  - now apply rank_1_name.
+  - now apply rank_2_name.
+Qed.
+
+(** everything below <vstr>/ is uploaded before the root inventory: such a name is not
+    "inventory.json" (it has a slash) and does not begin with "inventory.json." unless the
+    directory itself is named so, which no version directory ("v" and digits) is *)
+Lemma starts_with_noslash_cut : forall p v t, noslash p = true ->
+  starts_with p (v ++ slash :: t) = true -> starts_with p v = true.
+Proof.
+  induction p as [|c p IH]; intros v t Hp H; [reflexivity|].
+  cbn [noslash forallb] in Hp. apply andb_true_iff in Hp as [Hc Hp].
+  destruct v as [|d v]; cbn [app starts_with] in H |- *.
+  - apply andb_true_iff in H as [H _]. apply Ascii.eqb_eq in H. subst c. discriminate.
+  - apply andb_true_iff in H as [H1 H2]. rewrite H1. cbn [andb]. eapply IH; eauto.
+Qed.
+
+Lemma version_files_rank_0 vstr rel :
+  starts_with K_INVENTORY_SIDECAR_PREFIX vstr = false ->
+  starts_with (vstr ++ [slash]) rel = true -> upload_rank rel = 0.
+Proof.
+  intros H1 H3. apply starts_with_inv in H3 as [t ->]. rewrite <- app_assoc. cbn [app]. unfold upload_rank.
+  destruct (starts_with K_INVENTORY_SIDECAR_PREFIX (vstr ++ slash :: t)) eqn:X.
+  { apply starts_with_noslash_cut in X; [congruence|reflexivity]. }
+  destruct (bytes_eqb (vstr ++ slash :: t) K_INVENTORY_FILE) eqn:E; [|reflexivity].
+  apply bytes_eqb_eq in E. exfalso.
+  assert (N : noslash (vstr ++ slash :: t) = true) by (rewrite E; reflexivity).
+  unfold noslash in N. rewrite forallb_app in N. apply andb_true_iff in N as [_ N]. discriminate.
+Qed.
+
+(* ------------------------------------------------------------------ samples: the inputs of the two repaired classes *)
+
+Definition wit_bucket : bucket :=
+  [(b "pre/o1/0=ocfl_object_1.0", b "decl");
+   (b "pre/o1/inventory.json", b "inv1"); (b "pre/o1/inventory.json.sha512", b "sc1");
+   (b "pre/o1/v1/inventory.json", b "inv1"); (b "pre/o1/v1/inventory.json.sha512", b "sc1");
+   (b "pre/o1/v1/content/a.txt", b "A")].
+(** the staged v2 as WalkDir happens to list it: inventory first *)
+Definition wit_input : nv_input :=
+  mkNv (b "o1") (b "v2")
+       [mkUf (b "inventory.json") 700 (b "inv2"); mkUf (b "content/b.txt") 3 (b "B");
+        mkUf (b "inventory.json.sha512") 140 (b "sc2")]
+       (mkUf (b "inventory.json") 700 (b "inv2")) (mkUf (b "inventory.json.sha512") 140 (b "sc2"))
+       (b "inventory.json.sha512") None.
+Definition wit_upgrade : nv_input :=
+  mkNv (b "o1") (b "v2")
+       [mkUf (b "inventory.json") 700 (b "inv2"); mkUf (b "inventory.json.sha512") 140 (b "sc2")]
+       (mkUf (b "inventory.json") 700 (b "inv2")) (mkUf (b "inventory.json.sha512") 140 (b "sc2"))
+       (b "inventory.json.sha512") (Some (b "0=ocfl_object_1.1", b "decl11")).
+
+Definition opt_eqb (a c : option bytes) : bool :=
+  match a, c with Some x, Some y => bytes_eqb x y | None, None => true | _, _ => false end.
+(** the two buckets read alike at every key either of them has *)
+Definition bk_equiv (a c : bucket) : bool :=
+  forallb (fun k => opt_eqb (bk_get k a) (bk_get k c)) (bk_keys a ++ bk_keys c).
+Definition is_err (r : res unit) : bool := match r with Err => true | _ => false end.
+
+(** the input of the former class root-inventory-rollback: the root sidecar PUT (request 4) fails.
+    Now the previous root inventory is PUT back and the version files are deleted. *)
+Lemma sidecar_fault_sample :
+  let out := write_new_version (Some 4) (b "pre") wit_input (init_st wit_bucket) in
+  fst out = Err /\ bk_equiv (st_b (snd out)) wit_bucket = true /\
+  st_log (snd out) =
+    [RPut (b "pre/o1/v2/content/b.txt"); RPut (b "pre/o1/v2/inventory.json"); RPut (b "pre/o1/v2/inventory.json.sha512");
+     RGet (b "pre/o1/inventory.json"); RGet (b "pre/o1/inventory.json.sha512");
+     RPut (b "pre/o1/inventory.json"); RPut (b "pre/o1/inventory.json.sha512");
+     RPut (b "pre/o1/inventory.json"); RPut (b "pre/o1/inventory.json.sha512");
+     RDelete (b "pre/o1/v2/content/b.txt"); RDelete (b "pre/o1/v2/inventory.json");
+     RDelete (b "pre/o1/v2/inventory.json.sha512")].
+Proof. vm_compute. repeat split; reflexivity. Qed.
+
+(** an upgrade: the six mutating requests of the fault-free commit, and every one of them failed
+    in turn - also the PUT of the new declaration (4) and the DELETE of the old one (5) *)
+Lemma upgrade_sweep_sample :
+  st_log (snd (write_new_version None (b "pre") wit_upgrade (init_st wit_bucket))) =
+    [RPut (b "pre/o1/v2/inventory.json"); RPut (b "pre/o1/v2/inventory.json.sha512");
+     RGet (b "pre/o1/inventory.json"); RGet (b "pre/o1/inventory.json.sha512"); RGet (b "pre/o1/0=ocfl_object_1.0");
+     RPut (b "pre/o1/inventory.json"); RPut (b "pre/o1/inventory.json.sha512");
+     RPut (b "pre/o1/0=ocfl_object_1.1"); RDelete (b "pre/o1/0=ocfl_object_1.0")] /\
+  forallb (fun k => let out := write_new_version (Some k) (b "pre") wit_upgrade (init_st wit_bucket) in
+                    is_err (fst out) && bk_equiv (st_b (snd out)) wit_bucket && (k <? st_n (snd out)))
+          [0; 1; 2; 3; 4; 5] = true /\
+  fst (write_new_version (Some 6) (b "pre") wit_upgrade (init_st wit_bucket)) = Ok tt /\
+  st_log (snd (write_new_version (Some 5) (b "pre") wit_upgrade (init_st wit_bucket))) =
+    [RPut (b "pre/o1/v2/inventory.json"); RPut (b "pre/o1/v2/inventory.json.sha512");
+     RGet (b "pre/o1/inventory.json"); RGet (b "pre/o1/inventory.json.sha512"); RGet (b "pre/o1/0=ocfl_object_1.0");
+     RPut (b "pre/o1/inventory.json"); RPut (b "pre/o1/inventory.json.sha512");
+     RPut (b "pre/o1/0=ocfl_object_1.1"); RDelete (b "pre/o1/0=ocfl_object_1.0");
+     RDelete (b "pre/o1/0=ocfl_object_1.1"); RPut (b "pre/o1/0=ocfl_object_1.0");
+     RPut (b "pre/o1/inventory.json"); RPut (b "pre/o1/inventory.json.sha512");
+     RDelete (b "pre/o1/v2/inventory.json"); RDelete (b "pre/o1/v2/inventory.json.sha512")].
+Proof. vm_compute. repeat split; reflexivity. Qed.
+
+Lemma wit_upgrade_wf : nv_wf (b "pre") wit_upgrade /\ nv_ready (b "pre") wit_upgrade wit_bucket.
+Proof.
+  split.
+  - constructor; try reflexivity.
+    + repeat constructor.
+    + intros name content E. injection E as <- _. reflexivity.
+  - constructor; [|discriminate|discriminate].
+    intros k Hk. cbn in Hk. repeat (destruct Hk as [<- | Hk]; [reflexivity|]). destruct Hk.
+Qed.
+
+Lemma wit_input_wf : nv_wf (b "pre") wit_input /\ nv_ready (b "pre") wit_input wit_bucket.
+Proof.
+  split.
+  - constructor; try reflexivity.
+    + repeat constructor.
+    + intros name content E. discriminate.
+  - constructor; [|discriminate|discriminate].
+    intros k Hk. cbn in Hk. repeat (destruct Hk as [<- | Hk]; [reflexivity|]). destruct Hk.
+Qed.
+
+(** the input of the former class new-object-walk-order: the walk of a staged object with
+    zero-padded version numbers (`new -z 2`) lists the root inventory first; it is stored last
+    but one, its sidecar last *)
+Definition wit_walk : list ufile :=
+  [mkUf (b "inventory.json") 600 (b "inv1"); mkUf (b "v01/inventory.json") 600 (b "inv1");
+   mkUf (b "v01/content/a.txt") 5 (b "A"); mkUf (b "v01/inventory.json.sha256") 80 (b "sc1");
+   mkUf (b "inventory.json.sha256") 80 (b "sc1"); mkUf (b "0=ocfl_object_1.0") 16 (b "decl")].
+Lemma new_object_walk_sample :
+  st_log (snd (write_new_object None [] (b "o1") wit_walk (init_st []))) =
+    [RPut (b "o1/v01/inventory.json"); RPut (b "o1/v01/content/a.txt"); RPut (b "o1/v01/inventory.json.sha256");
+     RPut (b "o1/0=ocfl_object_1.0"); RPut (b "o1/inventory.json"); RPut (b "o1/inventory.json.sha256")].
+Proof. vm_compute. reflexivity. Qed.
+
+(* ------------------------------------------------------------------ historical notes: the behaviour before the repairs *)
+
+(** before /repo commit 9053efb the failed root sidecar PUT made do_with_rollback delete the root
+    inventory.json that had already replaced the previous one *)
+Lemma root_inventory_rollback_before_fix :
+  let out := write_new_version_before_fix (Some 4) (b "pre") wit_input (init_st wit_bucket) in
+  fst out = Err /\
+  bk_get (b "pre/o1/inventory.json") wit_bucket = Some (b "inv1") /\
+  bk_get (b "pre/o1/inventory.json") (st_b (snd out)) = None /\
+  bk_get (b "pre/o1/inventory.json.sha512") (st_b (snd out)) = Some (b "sc1").
+Proof. vm_compute. repeat split; reflexivity. Qed.
+
+(** ... and a failed PUT of the new declaration of an upgrade left v2 installed under the old one *)
+Lemma upgrade_swap_before_fix :
+  let out := write_new_version_before_fix (Some 4) (b "pre") wit_upgrade (init_st wit_bucket) in
+  fst out = Err /\
+  bk_get (b "pre/o1/inventory.json") (st_b (snd out)) = Some (b "inv2") /\
+  bk_get (b "pre/o1/0=ocfl_object_1.0") (st_b (snd out)) = Some (b "decl") /\
+  bk_get (b "pre/o1/0=ocfl_object_1.1") (st_b (snd out)) = None.
+Proof. vm_compute. repeat split; reflexivity. Qed.
+
+(** before /repo commit 4953bf6 a new object was uploaded in walk order: root inventory first *)
+Lemma new_object_walk_order_before_fix :
+  st_log (snd (write_new_object_before_fix None [] (b "o1") wit_walk (init_st []))) =
+    [RPut (b "o1/inventory.json"); RPut (b "o1/v01/inventory.json"); RPut (b "o1/v01/content/a.txt");
+     RPut (b "o1/v01/inventory.json.sha256"); RPut (b "o1/inventory.json.sha256"); RPut (b "o1/0=ocfl_object_1.0")].
+Proof. vm_compute. reflexivity. Qed.
